@@ -228,7 +228,7 @@ fn read_sink(ctx: &ExecCtx, sinks: &mut [Sink], sink: u16, n: u8) {
             }
         }
     }
-    ctx.log(Ev::SinkRead { sink, items });
+    ctx.log(Ev::SinkRead { sink, asked: n, items });
 }
 
 /// Outcome data that is not in the log.
@@ -306,7 +306,7 @@ pub fn run_case(case: &Arc<Case>, ctx: &Arc<ExecCtx>) -> RunInfo {
                 ctx.log(Ev::SendBegin { actor: Actor::Driver, port: 2000 + *target, msg: id, kind: *kind, query: true, salt: m.salt, ttl: m.ttl });
                 let r = guard(|| s.process_query(Node::on_query, m, &addrs[*target as usize]));
                 let (replies, res) = match r {
-                    Ok(rep) => (vec![(rep.replier, rep.msg, rep.via)], Res::Ok),
+                    Ok(rep) => (vec![(rep.replier, rep.msg, rep.via, rep.rvia)], Res::Ok),
                     Err(e) => (vec![], e),
                 };
                 ctx.log(Ev::SendEnd { actor: Actor::Driver, port: 2000 + *target, msg: id, replies });
@@ -327,8 +327,8 @@ pub fn run_case(case: &Arc<Case>, ctx: &Arc<ExecCtx>) -> RunInfo {
                         ctx.log(Ev::SendBegin { actor: Actor::Driver, port: 3000 + *src, msg: id, kind: *kind, query: true, salt: m.salt, ttl: m.ttl });
                         let (action, mut rx) = qs.query(m);
                         let r = guard(|| s.process(action));
-                        let replies: Vec<(u16, u64, u32)> = match rx.take() {
-                            Some(it) => it.map(|r| (r.replier, r.msg, if r.rvia != 0 { r.rvia } else { r.via })).collect(),
+                        let replies: Vec<(u16, u64, u32, u32)> = match rx.take() {
+                            Some(it) => it.map(|r| (r.replier, r.msg, r.via, r.rvia)).collect(),
                             None => vec![],
                         };
                         ctx.log(Ev::SendEnd { actor: Actor::Driver, port: 3000 + *src, msg: id, replies });
